@@ -63,19 +63,24 @@ def check_case(case):
 
   # ---- make the bindings --------------------------------------------------------------
   model = {}
-  for i, (scope, param, value, api, spell) in enumerate(case['bindings']):
-    sel = spellings[spell]
-    key = (scope + '/' if scope else '') + sel
-    if api == 'str':
-      gin.bind_parameter(f'{key}.{param}', value)
-    elif api == 'tuple':
-      gin.bind_parameter((scope, sel, param), value)
-    elif api == 'parse':
-      gin.parse_config(f'{key}.{param} = {value!r}')
-    else:
-      gin.parse_config(f'{key}:\n  {param} = {value!r}\n')
-    model[(scope, param)] = value
-    labels.add('bind:' + api)
+  # bindings may be made while some unrelated config scope is active: the scope a binding belongs
+  # to is the one written in its key, nothing else
+  with gin.config_scope(case.get('bind_ambient') or None):
+    for i, (scope, param, value, api, spell) in enumerate(case['bindings']):
+      sel = spellings[spell]
+      key = (scope + '/' if scope else '') + sel
+      if api == 'str':
+        gin.bind_parameter(f'{key}.{param}', value)
+      elif api == 'tuple':
+        gin.bind_parameter((scope, sel, param), value)
+      elif api == 'parse':
+        gin.parse_config(f'{key}.{param} = {value!r}')
+      else:
+        gin.parse_config(f'{key}:\n  {param} = {value!r}\n')
+      model[(scope, param)] = value
+      labels.add('bind:' + api)
+  if case.get('bind_ambient'):
+    labels.add('bindings-made-inside-a-scope')
 
   # ---- enter the scope stack -----------------------------------------------------------
   stack = M.ScopeStack()
@@ -251,4 +256,5 @@ def strategy(draw):
       call['rebind'] = [draw(st.integers(0, 11)), j, draw(st.booleans())]
     calls.append(call)
   return {'shape': shape, 'entries': entries, 'bindings': bindings, 'calls': calls,
-          'finalize': draw(st.integers(0, 2)) == 0}
+          'finalize': draw(st.integers(0, 2)) == 0,
+          'bind_ambient': draw(st.sampled_from(['', '', 's', 'zz/t']))}
